@@ -8,7 +8,7 @@ from common import Check, coq_eval, coq_bool, impl_run, impl_run_parallel
 from common import coq_str as _coq_str
 import gen
 import coqmulti
-from c04 import tables_pre, expected_type, TARGS
+from c04 import tables_pre, expected_type, twin_guess, TARGS
 
 
 def coq_str(s):
@@ -204,10 +204,14 @@ def run(tier):
         if os.environ.get("VERIF_TIMING"):
             print("timing", label, timing[label], file=sys.stderr)
 
-    tres = impl_run([{"op": "c04_tables"}])
-    if not tres[0]["ok"]:
-        raise RuntimeError(tres[0]["err"])
-    tables = tres[0]["res"]
+    tres = impl_run([{"op": "c04_tables"}, {"op": "c04_documented"}])
+    for r in tres:
+        if not r["ok"]:
+            raise RuntimeError(r["err"])
+    # model and search use the documented MIME tables (see c04.py), not the interpreter's state
+    tables = dict(tres[0]["res"], **{k: tres[1]["res"][k] for k in ("suffix_map", "encodings_map", "types_strict", "types_common")})
+    TT = {"suffix": dict(tables["suffix_map"]), "enc": dict(tables["encodings_map"]), "strict": dict(tables["types_strict"]),
+          "common": dict(tables["types_common"])}
     terr = coqmulti.compile_module("C15", "C15T", "Lib.Str", tables_pre(tables))
     eaexts_ok = tables["eaexts"] == [[e, b] for e, b in EXTS]
 
@@ -308,8 +312,7 @@ def run(tier):
     k_info, k_dir, k_items, k_pop, k_parse = [], [], [], [], []
     n_or = 0
     default_mime = tables["default_mimetype"]
-    gres = impl_run([{"op": "c04_guess", "inputs": sorted({s for _, items, _ in worlds for s in items})}])
-    guess = dict(zip(sorted({s for _, items, _ in worlds for s in items}), gres[0]["res"]))
+    guess = {sel: twin_guess(sel, TT) for _, items, _ in worlds for sel in items}
     for wi, ((tree, items, reqs), wr) in enumerate(zip(worlds, wres)):
         results = wr["res"]["results"]
         plain = {}
